@@ -64,6 +64,28 @@ class M(metaclass=Meta):
     pass
 
 
+class It:
+    """an iterator object: stepping it is a call"""
+
+    def __iter__(self):
+        return self
+
+    def __next__(self):
+        EVENTS.append(('next', 'It'))
+        return 'stepped'
+
+
+ITER = It()
+LISTITER = iter([1, 2, 3])
+
+
+def _gen():
+    EVENTS.append(('next', 'gen'))
+    yield 'from-generator'
+    EVENTS.append(('next', 'gen-2'))
+
+
+GEN = _gen()
 INSTANCE = K.__new__(K)
 EVENTS.clear()
 
